@@ -64,6 +64,53 @@ def group_witness(assign_named):
     return {k: (hex(v) if isinstance(v, int) else v) for k, v in sorted(vals.items())}
 
 
+def decide_with_arrays(ip, d, max_field_bits=12):
+    """d is a non-empty difference condition that may mention blocks of variables standing
+    for `array[symbolic index]`.  Decide it exactly by instantiating the index fields: for
+    every assignment of the index-field variables each symbolic block is renamed to the
+    block of the concrete element it then designates.  Returns the refined condition (0 if
+    the difference is spurious) or None if the index fields are too wide to enumerate."""
+    Mx = bv.M
+    sup = Mx.support(d)
+    keys = []
+    for (name, idx), block in ip.arr_blocks.items():
+        if bv.to_int(idx) is not None:
+            continue
+        if any(Mx.var[b] in sup for b in block):
+            keys.append((name, idx, block))
+    if not keys:
+        return d
+    fsup = set()
+    for _, idx, _ in keys:
+        for bit in idx:
+            Mx.support(bit, fsup, set())
+    fsup = sorted(fsup)
+    if len(fsup) > max_field_bits:
+        return None
+    for m in range(1 << len(fsup)):
+        sigma = {r: (m >> i) & 1 for i, r in enumerate(fsup)}
+        ds = Mx.restrict(d, sigma)
+        if ds == 0:
+            continue
+        subst = {}
+        for name, idx, block in keys:
+            v = 0
+            for i, bit in enumerate(idx):
+                if Mx.eval(bit, sigma):
+                    v |= 1 << i
+            conc = ip.arr_block(name, len(block), bv.const(v, len(idx)))
+            for sb, cb in zip(block, conc):
+                subst[Mx.var[sb]] = cb
+        d2 = Mx.compose(ds, subst)
+        if d2 != 0:
+            cube = 1
+            for r, val in sigma.items():
+                x = Mx.mk(r, 0, 1)
+                cube = Mx.AND(cube, x if val else Mx.NOT(x))
+            return Mx.AND(d2, cube)
+    return 0
+
+
 class IsaCheck:
     def __init__(self, isa, ip, outs, w0, constraint=1):
         self.isa = isa
@@ -180,50 +227,11 @@ class IsaCheck:
         return d
 
     def decide_with_arrays(self, d):
-        """d is a non-empty difference condition that may mention blocks of variables
-        standing for `register[symbolic index]`.  Decide it exactly by instantiating the
-        index fields: for every assignment of the index-field variables the symbolic
-        block is renamed to the block of the concrete register it then designates."""
-        Mx = bv.M
-        sup = Mx.support(d)
-        keys = []
-        for (name, idx), block in self.ip.arr_blocks.items():
-            if bv.to_int(idx) is not None:
-                continue
-            if any(Mx.var[b] in sup for b in block):
-                keys.append((name, idx, block))
-        if not keys:
-            return d
-        fsup = set()
-        for _, idx, _ in keys:
-            for bit in idx:
-                Mx.support(bit, fsup, set())
-        fsup = sorted(fsup)
-        if len(fsup) > 12:
+        r = decide_with_arrays(self.ip, d)
+        if r is None:
             self.undecided = getattr(self, "undecided", 0) + 1
             return d
-        for m in range(1 << len(fsup)):
-            sigma = {r: (m >> i) & 1 for i, r in enumerate(fsup)}
-            ds = Mx.restrict(d, sigma)
-            if ds == 0:
-                continue
-            subst = {}
-            for name, idx, block in keys:
-                v = 0
-                for i, bit in enumerate(idx):
-                    if Mx.eval(bit, sigma):
-                        v |= 1 << i
-                conc = self.ip.arr_block(name, len(block), bv.const(v, len(idx)))
-                for sb, cb in zip(block, conc):
-                    subst[Mx.var[sb]] = cb
-            d2 = Mx.compose(ds, subst)
-            if d2 != 0:
-                cube = 1
-                for r, val in sigma.items():
-                    x = Mx.mk(r, 0, 1)
-                    cube = Mx.AND(cube, x if val else Mx.NOT(x))
-                return Mx.AND(d2, cube)
-        return 0
+        return r
 
     # ------------------------------------------------------------------
     def run(self):
